@@ -1,4 +1,5 @@
 """C20 — concurrent calls return what the same calls return sequentially."""
+import json
 import os
 import random
 import sys
@@ -80,6 +81,13 @@ POOL = [
     mk("search_ru_range", "search", "Это было с 12 января по 30 апреля 2021", "ru", adl=False),
     mk("search_de_words", "search", "Es war gestern und vorgestern", "de", adl=True),
     mk("search_auto_words", "search", "We met yesterday, then last week", None, adl=True),
+    # settings given as a Settings instance instead of a dict
+    mk("search_fr_inst", "search", "Nous sommes le 11 septembre 2014 et le 3 mars 2015.", "fr", {"PREFER_DATES_FROM": "past"},
+       adl=False, as_instance=True),
+    mk("en_dmy_inst", "parse", "02/03/2015", "en", {"DATE_ORDER": "DMY"}, as_instance=True),
+    # regional locales whose own overrides decide the reading (date order of en-AU; 'mth' of en-CA is above)
+    mk("loc_au", "ddp", "01/02/2015", None, locales=["en-AU"]), mk("loc_fr_ca", "ddp", "01/02/2015", None, locales=["fr-CA"]),
+    mk("search_en_first", "search", "It was on 4 October 1957", "en", adl=False),
 ]
 for _i, _c in enumerate(POOL):
     _c["id"] = _i
@@ -101,6 +109,14 @@ PAIRS = [("fr_num", "en_num"), ("en_num", "en_dmy"), ("fr_num", "default"), ("en
          ("inst_multi_fr", "fr_num"), ("fr_default", "hijri_amb"), ("fr_default", "jalali_amb"), ("hijri_amb", "jalali_amb")]
 
 
+PAIRS += [("search_fr_inst", "search_en"), ("en_dmy_inst", "fr_num"), ("search_fr_inst", "en_dmy_inst"), ("loc_au", "en_num"),
+          ("loc_au", "loc_fr_ca")]
+# cold schedules (fresh interpreter per schedule, A's call is the first use of everything it touches): A, B
+COLD_PAIRS = [("search_en_first", "loc_au"), ("search_fr", "loc_fr_ca"), ("loc_au", "search_en_first"), ("en_num", "loc_au"),
+              ("loc_ca", "loc_au"), ("rel_de", "search_de_words")]
+COLD_FILES = ("languages/loader.py", "conf.py")     # quick: every line of these; a seeded sample of the others
+
+
 # pairs explored with two pre-emptions (A outside the lock while B is half-way): calls that do work outside the lock
 TWO_PREEMPTIONS = {("hijri_amb", "fr_default"), ("jalali_amb", "fr_default"), ("search_ru_range", "search_en"),
                    ("search_en_words", "en_skipfoo"), ("fmt_tz_est", "fmt_tz_tokyo")}
@@ -119,6 +135,10 @@ def shards(tier, seed):
     # cold start: each shard is a fresh interpreter whose very first library calls are made by 8 threads at once
     for j in range(4 if tier == "quick" else 40):
         out.append({"part": "cold", "refs": refs, "j": j})
+    nsl = 2 if tier == "quick" else 8
+    for i, (a, b) in enumerate(COLD_PAIRS):
+        for sl in range(nsl):
+            out.append({"part": "coldsched", "refs": refs, "a": a, "b": b, "i": i, "slice": sl, "nslices": nsl})
     return out
 
 
@@ -407,7 +427,75 @@ def run_cold(ctx, desc):
         ctx.count("cold_start_rounds_clean")
 
 
+def cold_job(job, timeout=300):
+    import subprocess
+
+    p = subprocess.run([sys.executable, "-m", "rv.props.c20_coldrun", json.dumps(job)], capture_output=True, text=True,
+                       timeout=timeout)
+    if p.returncode != 0 or not p.stdout.strip():
+        raise RuntimeError("cold run failed rc=%s: %s" % (p.returncode, p.stderr[-600:]))
+    return json.loads(p.stdout.strip().splitlines()[-1])
+
+
+def run_coldsched(ctx, desc):
+    """Controlled pre-emption during a call's *first* use of the library in a process (locale data, lazily imported search
+    module, lazily built tables): one fresh interpreter per schedule."""
+    refs = desc["refs"]
+    ca, cb = BY[desc["a"]], BY[desc["b"]]
+    na, nb = desc["a"], desc["b"]
+    try:
+        rec = cold_job({"mode": "record", "a": ca})
+    except Exception as e:
+        ctx.inconclusive.append("cold record run failed for %s: %r" % (na, e))
+        return
+    if not C.same_outcome(rec["A"], ref_for(refs, ca)):
+        ctx.violation({"pair": [na, nb], "kind": "sequential"}, {"A": rec["A"]}, {"A": ref_for(refs, ca)},
+                      "sequential-differs-from-fresh-process", {"pair": "%s|%s" % (na, nb)})
+        return
+    rnd = rng(ctx.seed, "C20cold", desc["i"])
+    first = sorted(rec["first"], key=lambda t: t[2])
+    must = [k for f, ln, k in first if f in COLD_FILES]
+    rest = [k for f, ln, k in first if f not in COLD_FILES]
+    if ctx.tier == "quick":
+        if ca["api"] != "search":
+            # a parse call holds the library's lock from its first line to its last: B can only wait; a few schedules show that
+            must = sorted(rnd.sample(must, min(len(must), 10)))
+            rest = sorted(rnd.sample(rest, min(len(rest), 10)))
+        else:
+            rest = sorted(rnd.sample(rest, min(len(rest), 60)))
+    ks = sorted(must + rest)[desc["slice"]::desc["nslices"]]
+    ctx.count("cold_sched_lines_in_A:%s" % na, rec["L"]) if desc["slice"] == 0 else None
+    for k in ks:
+        try:
+            r = cold_job({"mode": "schedule", "a": ca, "b": cb, "k": k})
+        except Exception as e:
+            ctx.inconclusive.append("cold schedule failed: pair %s|%s k=%d: %r" % (na, nb, k, e))
+            return
+        if r["hung"]:
+            ctx.inconclusive.append("cold schedule hung: pair %s|%s k=%d" % (na, nb, k))
+            return
+        if not r["fired"]:
+            ctx.count("cold_schedules_not_realised")
+            continue
+        ctx.ran()
+        ctx.count("cold_schedules_realised")
+        if r["blocked"]:
+            ctx.count("cold_schedules_B_blocked")
+        ok = {"A": C.same_outcome(r["A"], ref_for(refs, ca)), "B": C.same_outcome(r["B"], ref_for(refs, cb)),
+              "after_A": C.same_outcome(r["after_A"], ref_for(refs, ca)), "after_B": C.same_outcome(r["after_B"], ref_for(refs, cb))}
+        if not all(ok.values()):
+            ctx.violation({"pair": [na, nb], "k": k, "preempted_at": r["loc"], "A": ca, "B": cb, "kind": "cold"},
+                          {x: r[x] for x in ok}, {"A": ref_for(refs, ca), "B": ref_for(refs, cb)}, "concurrent-divergence",
+                          {"pair": "%s|%s" % (na, nb), "who": ",".join(x for x, v in ok.items() if not v),
+                           "file": r["loc"][0] if r["loc"] else None, "exc": None, "cold": True})
+        else:
+            ctx.nontrivial("coldsched", na, nb, k)
+
+
 def run_shard(ctx, desc):
+    if desc["part"] == "coldsched":
+        run_coldsched(ctx, desc)
+        return
     import dateparser  # noqa
     import dateparser.search  # noqa
     from dateparser.calendars.jalali import JalaliCalendar  # noqa
@@ -457,6 +545,13 @@ def replay_case(ctx, v):
     finally:
         srv.close()
     ca, cb = BY[c["pair"][0]], BY[c["pair"][1]]
+    if c.get("kind") == "cold":
+        r = cold_job({"mode": "schedule", "a": ca, "b": cb, "k": c["k"]})
+        ok = {x: C.same_outcome(r[x], refs[(ca if x.endswith("A") else cb)["name"]]) for x in ("A", "B", "after_A", "after_B")}
+        if r["fired"] and not all(ok.values()):
+            ctx.violation(c, {x: r[x] for x in ok}, {"A": refs[ca["name"]], "B": refs[cb["name"]]}, "concurrent-divergence",
+                          v.get("features"))
+        return
     insts = {}
     sched = Scheduler(repo_path() + "/dateparser/")
     sched.install()
